@@ -603,6 +603,9 @@ type oracleCase struct {
 	key    string   // regex oracle
 	value  string
 	lines  []string // the self-contained lines of the case (H..., T)
+	// build re-creates the self-contained lines and the expected argv from a smaller value
+	// (expand-once, regex-exact) or word list (quote-roundtrip); used for shrinking
+	build func(value string, words []string) (lines []string, want []string)
 }
 
 func perturb(v string) []string {
@@ -875,7 +878,7 @@ func (rn *runner) argvOf(lines []string) ([]string, bool) {
 // oracle evaluation on a recorded argv
 func (rn *runner) checkOracle(oc *oracleCase, argv []string, invoked bool) (fails bool, detail string) {
 	switch oc.name {
-	case "quote-roundtrip", "expand-once":
+	case "quote-roundtrip", "expand-once", "plain-split":
 		if !invoked {
 			return true, "the args command did not run"
 		}
@@ -913,17 +916,46 @@ func (rn *runner) handleOracle(oc *oracleCase, sc *script, o *scriptObs) {
 	}
 	// re-evaluate alone (self-contained lines) and shrink the value / words
 	lines := oc.lines
-	if a, ok := rn.argvOf(lines); true {
-		if f2, d2 := rn.checkOracle(oc, a, ok); f2 {
-			detail = d2
-			argv = a
-		} else {
-			// only fails inside the longer script: report the script prefix
-			lines = scriptLines(sc, oc.item)
+	want, value := oc.want, oc.value
+	a, ok := rn.argvOf(lines)
+	if f2, d2 := rn.checkOracle(oc, a, ok); f2 {
+		detail, argv = d2, a
+		if oc.build != nil && rn.shrunk["o:"+oc.name] < 3 {
+			failsWith := func(v string, ws []string) bool {
+				ls, w := oc.build(v, ws)
+				a, ok := rn.argvOf(ls)
+				f, _ := rn.checkOracle(&oracleCase{name: oc.name, want: w, key: oc.key, value: v}, a, ok)
+				return f
+			}
+			if oc.name == "quote-roundtrip" || oc.name == "plain-split" {
+				want = common.ShrinkList(want, func(c []string) bool { return failsWith("", c) })
+				for i := range want {
+					wi := common.ShrinkBytes([]byte(want[i]), func(c []byte) bool {
+						ws := append([]string{}, want...)
+						ws[i] = string(c)
+						if oc.name == "plain-split" && (len(c) == 0 || strings.ContainsAny(string(c), " \t\r#'$")) {
+							return false
+						}
+						return failsWith("", ws)
+					})
+					want[i] = string(wi)
+				}
+			} else {
+				value = string(common.ShrinkBytes([]byte(value), func(c []byte) bool { return failsWith(string(c), nil) }))
+			}
+			lines, want = oc.build(value, want)
+			a, ok = rn.argvOf(lines)
+			oc2 := &oracleCase{name: oc.name, want: want, key: oc.key, value: value}
+			if f3, d3 := rn.checkOracle(oc2, a, ok); f3 {
+				detail, argv = d3, a
+			}
 		}
+	} else {
+		// only fails inside the longer script: report the script prefix
+		lines = scriptLines(sc, oc.item)
 	}
-	rn.oracleFail(oc.name, lines, sc.names, detail, showWords(argv), showWords(oc.want),
-		map[string]string{"want": hexes(oc.want), "key": common.Hex([]byte(oc.key)), "value": common.Hex([]byte(oc.value)), "value_text": fmt.Sprintf("%q", oc.value)})
+	rn.oracleFail(oc.name, lines, sc.names, detail, showWords(argv), showWords(want),
+		map[string]string{"want": hexes(want), "key": common.Hex([]byte(oc.key)), "value": common.Hex([]byte(value)), "value_text": fmt.Sprintf("%q", value)})
 }
 
 // one batch = a set of scripts evaluated by one RunT call and one model conversation
@@ -997,7 +1029,15 @@ func (rn *runner) batch(scripts []*script, ocs []*oracleCase, trackers [][]map[s
 				if tm := trackers[s][i]; tm != nil && o.probes[i] != nil {
 					for j, n := range sc.names {
 						if want, ok := tm[n]; ok && j < len(o.probes[i]) && o.probes[i][j] != want {
-							rn.oracleFail("latest-wins", scriptLines(sc, i), sc.names,
+							lines := scriptLines(sc, i)
+							if rn.shrunk["o:latest-wins"] < 3 && !strings.Contains(n, "=") {
+								// smallest candidate: the assignment alone
+								mini := fromLines([]string{"Henv " + sqGo(n+"="+want)}, []string{n})
+								if mo := runImpl(rn.f.Work, []*script{mini}, true); mo[0].probes[1] != nil && mo[0].probes[1][0] != want {
+									lines = []string{"Henv " + sqGo(n+"="+want)}
+								}
+							}
+							rn.oracleFail("latest-wins", lines, sc.names,
 								fmt.Sprintf("Getenv(%q) = %q, last assignment was %q", n, o.probes[i][j], want), o.probes[i][j], want, map[string]string{"key": common.Hex([]byte(n))})
 						}
 						rn.res.Count("oracle:latest-wins")
@@ -1112,7 +1152,35 @@ func buildScript(r *common.RNG, sidx, ncases int, execEvery int) (*script, []*or
 			ft["oracle-quote-roundtrip"] = true
 			i := add(item{kind: 'T', text: line})
 			feats[i] = ft
-			ocs = append(ocs, &oracleCase{name: "quote-roundtrip", script: sidx, item: i, want: ws, lines: []string{"T" + line}})
+			ocs = append(ocs, &oracleCase{name: "quote-roundtrip", script: sidx, item: i, want: ws, lines: []string{"T" + line},
+				build: func(_ string, ws []string) ([]string, []string) {
+					var q []string
+					for _, w := range ws {
+						q = append(q, sqGo(w))
+					}
+					return []string{"T" + strings.TrimRight("args "+strings.Join(q, " "), " ")}, ws
+				}})
+		case k < 4: // oracle: plain words separated by runs of spaces and tabs parse to themselves
+			n := 1 + r.Intn(4)
+			ws := []string{}
+			for i := 0; i < n; i++ {
+				ws = append(ws, genPlain(r, 1))
+			}
+			seps := []string{common.Pick(r, []string{" ", "\t", "  ", " \t", "\t\t ", "\t "}), common.Pick(r, []string{" ", "\t", "\t \t"}), "\t", " "}
+			lead, trail := common.Pick(r, []string{"", "", " ", "\t"}), common.Pick(r, []string{"", "", " ", "\t", " \t "})
+			mk := func(ws []string) string {
+				line := lead + "args"
+				for i, w := range ws {
+					line += seps[i%len(seps)] + w
+				}
+				return line + trail
+			}
+			line := mk(ws)
+			ft["oracle-plain-split"] = true
+			i := add(item{kind: 'T', text: line})
+			feats[i] = ft
+			ocs = append(ocs, &oracleCase{name: "plain-split", script: sidx, item: i, want: ws, lines: []string{"T" + line},
+				build: func(_ string, ws []string) ([]string, []string) { return []string{"T" + mk(ws)}, ws }})
 		case k < 6: // oracle: an expanded value is one argument, not re-split, not re-expanded
 			key := common.Pick(r, validNames)
 			v := genValue(r)
@@ -1143,7 +1211,10 @@ func buildScript(r *common.RNG, sidx, ncases int, execEvery int) (*script, []*or
 			ft["oracle-expand-once"] = true
 			i := add(item{kind: 'T', text: line})
 			feats[i] = ft
-			ocs = append(ocs, &oracleCase{name: "expand-once", script: sidx, item: i, want: []string{pre + v + post}, key: key, value: v, lines: []string{"H" + h, "T" + line}})
+			ocs = append(ocs, &oracleCase{name: "expand-once", script: sidx, item: i, want: []string{pre + v + post}, key: key, value: v, lines: []string{"H" + h, "T" + line},
+				build: func(v string, _ []string) ([]string, []string) {
+					return []string{"Henv " + sqGo(key+"="+v), "T" + line}, []string{pre + v + post}
+				}})
 		case k < 8: // oracle: ${k@R} matches exactly the value
 			key := common.Pick(r, validNames)
 			v := genValue(r)
@@ -1157,7 +1228,10 @@ func buildScript(r *common.RNG, sidx, ncases int, execEvery int) (*script, []*or
 			ft["oracle-regex"] = true
 			i := add(item{kind: 'T', text: line})
 			feats[i] = ft
-			ocs = append(ocs, &oracleCase{name: "regex-exact", script: sidx, item: i, key: key, value: v, lines: []string{"H" + h, "T" + line}})
+			ocs = append(ocs, &oracleCase{name: "regex-exact", script: sidx, item: i, key: key, value: v, lines: []string{"H" + h, "T" + line},
+				build: func(v string, _ []string) ([]string, []string) {
+					return []string{"Henv " + sqGo(key+"="+v), "T" + line}, nil
+				}})
 		case k < 9 && r.Chance(1, 3): // blank and comment-only lines
 			ft["blank-line"] = true
 			i := add(item{kind: 'T', text: common.Pick(r, []string{"", " ", "\t", "\r", " \r", "# phase comment", " # comment", "\t#", "#", " #'unbalanced", "  \t  ", "#$A"})})
@@ -1528,7 +1602,7 @@ func main() {
 		"test lines from a grammar of plain / single-quoted chunks, $NAME ${NAME} ${NAME@R}, special and malformed $-forms, comments, CR/tab separators, unterminated quotes, and a random special-character stream, "+
 		"after histories of env K=V lines (quoted, half-quoted, plain, through expansion, display form, odd keys) and ts.Setenv calls; every line is one evaluation (argv vs ts_parse), "+
 		"probes compare ts.Getenv with getenv, child observations compare the environment block of the helper with child_env; lines that do not reach args are re-run alone for the verdict; "+
-		"oracles without the model: quote-roundtrip, expand-once, regex-exact, latest-wins, child-agrees, child-pwd; then %d strings each for quote_meta / utf8_ok / re_literal vs regexp, regexp/syntax, unicode/utf8 and os_expand vs os.Expand. "+
+		"oracles without the model: quote-roundtrip, plain-split, expand-once, regex-exact, latest-wins, child-agrees, child-pwd; then %d strings each for quote_meta / utf8_ok / re_literal vs regexp, regexp/syntax, unicode/utf8 and os_expand vs os.Expand. "+
 		"A line is non-trivial when it contains a quote, $, #, CR or tab; distinct = distinct line text", nScripts, nCases, nStd)
 	res.Write(f.Out)
 }
@@ -1583,7 +1657,7 @@ func (rn *runner) replay(v common.Violation) {
 			oc.want = []string{}
 		}
 		switch name {
-		case "quote-roundtrip", "expand-once", "regex-exact":
+		case "quote-roundtrip", "expand-once", "regex-exact", "plain-split":
 			inv := o.inv[last]
 			var argv []string
 			if len(inv) == 1 {
